@@ -381,16 +381,22 @@ def skeleton(m: HdlcModel):
     uses = [n for n in ast.walk(fn.node) if isinstance(n, ast.Name) and n.id == chunk and isinstance(n.ctx, ast.Load)]
     parents = {c: p for p in ast.walk(fn.node) for c in ast.iter_child_nodes(p)}
     bad_use = []
+    n_ext = 0
+    from sa.chunkcond import chunk_only, in_test, mentions as _cm, taken_for
+    PC = ("p", chunk)
+    SAMPLES = [b"", b"\x7e", b"\x7e\xa0\x08", b"A", b"\x7d", b"\x00" * 300, b"\xa0\x0a\x7e"]
     for u in uses:
         p = parents.get(u)
         # the single use is the sole argument of a method call; that the receiver is the input buffer (possibly through a local alias)
         # and the method appends is established on the resolved paths below (`extended`)
         ok = isinstance(p, ast.Call) and isinstance(p.func, ast.Attribute) and p.args == [u] and not p.keywords
-        if not ok:
+        if ok:
+            n_ext += 1
+        elif not in_test(u, parents):  # a test on the chunk is judged per path below, on representative chunks
             bad_use.append(u)
-    if bad_use or len(uses) != 1:
-        for u in bad_use or uses[1:]:
-            res.append(Result("bad", "chunk-flow", "chunk-use", "the chunk parameter is used for something other than extending the input buffer (the result can depend on the chunking)",
+    if bad_use or n_ext != 1:
+        for u in bad_use or [x for x in uses if not in_test(x, parents)][1:]:
+            res.append(Result("undecided", "chunk-flow", "chunk-use", "the chunk parameter is used for something other than extending the input buffer / deciding whether there is anything to do",
                               u.lineno, witness=ast.unparse(parents.get(u)) if parents.get(u) is not None else chunk))
         if not uses:
             res.append(Result("bad", "chunk-flow", "chunk-unused", "the chunk parameter is never appended to the input buffer", fn.node.lineno))
@@ -404,11 +410,32 @@ def skeleton(m: HdlcModel):
             continue
         H = None
         unknown = []
+        cconds = []
         for g, pol, ln in p.guards:
             if g == ("cmp", "Is", frame0, ("c", None)):
                 H = pol
+            elif _cm(g, PC) and chunk_only(g, PC):
+                cconds.append((g, pol))
             else:
                 unknown.append((show_sv(g), pol, ln))
+        if cconds:
+            cw = "; ".join(f"{'' if pol else 'not '}{show_sv(g)}" for g, pol in cconds)
+            taken = taken_for(cconds, PC, SAMPLES)
+            if taken is None:
+                res.append(Result("undecided", "skeleton", "chunk-condition", f"read() branches on a condition on the chunk that cannot be evaluated on representative chunks ({cw})", fn.node.lineno))
+                continue
+            if not taken:
+                continue  # no representative chunk takes this path
+            if not any(taken):
+                # only the empty chunk: nothing is added to the buffer, which the previous call left fully consumed and released
+                if any(e[0] in ("write", "mutate", "setitem") for e in p.effects):
+                    res.append(Result("undecided", "skeleton", "empty-chunk-path", "read() changes reader state on a path only the empty chunk takes", fn.node.lineno))
+                n_trim_ok += 1
+                continue
+            if not any(e[0] == "loop" for e in p.effects):
+                res.append(Result("bad", "skeleton", "early-return", "read() returns without processing the buffered octets for a non-empty chunk: a frame this chunk completes is delivered only if "
+                                  "another call follows", fn.node.lineno, witness=f"chunk {[x for x in taken if x][0]!r} under [{cw}]"))
+                continue
         seen_loop = False
         trimmed_after = False
         extended = False
@@ -454,7 +481,7 @@ def skeleton(m: HdlcModel):
             res.append(Result("bad", "chunk-flow", "no-extend", "a path through read() does not buffer the chunk", fn.node.lineno))
         if unknown and not any(r.kind == "bad" for r in res):
             for t, pol, ln in unknown:
-                res.append(Result("bad", "skeleton", "branch-outside-step", "control flow of read() outside the per-octet step depends on reader state other than hunt mode", ln, witness=t))
+                res.append(Result("undecided", "skeleton", "branch-outside-step", f"control flow of read() outside the per-octet step depends on a condition other than hunt mode / the chunk ({t})", ln))
         if trimmed_after:
             n_trim_ok += 1
         else:
@@ -472,15 +499,22 @@ def skeleton(m: HdlcModel):
             continue
         if "flag" in sp.post.trims and sp.post.frame != "none" and not sp.lits.get("H"):
             res.append(Result("bad", "hunt-trim", "step-trim-to-flag", "the step skips buffered input to the next flag without entering hunt mode", loc(m, sp), witness=f"[{sp.guard_text()}] => {sp.post.brief()}"))
+        def _no_pops(sv):
+            # the popped octet itself is not buffer state
+            if isinstance(sv, tuple):
+                if sv and m.is_popped(sv):
+                    return ("popped",)
+                return tuple(_no_pops(x) if isinstance(x, tuple) else x for x in sv)
+            return sv
         for t, pol, g in sp.unknown:
-            if m.mentions(g, m.f0(R.buffer)):
+            if m.mentions(_no_pops(g), m.f0(R.buffer)):
                 res.append(Result("bad", "lookahead", "buffer-state-in-step", "the per-octet step looks at how much input is buffered (beyond the loop test): the outcome depends on the chunking",
                                   loc(m, sp), witness=t))
     if not any(r.tag == "lookahead" for r in res):
         res.append(Result("ok", "lookahead", "loop test only", "the amount of buffered data influences control flow only through the loop test"))
     # result list: returned name initialised to [] and only appended to
     rets = [n for n in ast.walk(fn.node) if isinstance(n, ast.Return)]
-    if len(rets) == 1 and isinstance(rets[0].value, ast.Name):
+    if len(rets) >= 1 and all(isinstance(r_.value, ast.Name) and r_.value.id == getattr(rets[0].value, "id", None) for r_ in rets):
         rn = rets[0].value.id
         stores = [n for n in ast.walk(fn.node) if isinstance(n, ast.Name) and n.id == rn and isinstance(n.ctx, ast.Store)]
         if len(stores) == 1:
